@@ -23,6 +23,7 @@ func init() {
 			{ID: "C06-R6", Doc: "worker never reports a half-run task OK", Run: c06r6},
 			{ID: "C06-R7", Doc: "a failed combining attempt leaves nothing behind for its retry", Run: c06r7},
 			{ID: "C06-R8", Doc: "a recover handler notices every panic, panic(nil) included", Run: c06r8},
+			{ID: "C12-R8", Doc: "a failed task carries the error that decided it (local executor) (shared)", Run: c12r8},
 			{ID: "C14-R7", Doc: "the local executor returns its procs on every exit, so a failed task does not cost the session its parallelism (shared)", Run: c14r7},
 			{ID: "C17-R1", Doc: "the error of a user-supplied reader is reported by every operator reader above it, never turned into a clean, shorter result (shared)", Run: c17r1},
 			{ID: "C05-R3", Doc: "a Repartition function's result is used as given, so an out-of-range shard fails the task instead of being filed elsewhere (shared)", Run: c05r3},
